@@ -199,7 +199,10 @@ def run_driver(binary, inp, timeout=420, env=None, test="TestDriver"):
                     except ValueError:
                         pass  # truncated last line of a driver that was stopped
         if p.returncode != 0:
-            raise Inconclusive("driver failed (rc=%d, %d results written):\n%s" % (p.returncode, len(results), p.stdout[-6000:]))
+            out = p.stdout or ""
+            first = re.search(r"^(panic:|fatal error:|--- FAIL|FAIL).*$", out, re.M)
+            head = out[max(0, first.start() - 200): first.start() + 2500] if first else out[:2500]
+            raise Inconclusive("driver failed (rc=%d, %d results written):\n%s\n[...]\n%s" % (p.returncode, len(results), head, out[-3000:]))
         return results
     finally:
         shutil.rmtree(work, ignore_errors=True)
